@@ -346,6 +346,11 @@ theorem bitmapOk_strip (cat : Nat → Nat → Bool) (c : Class) : BitmapOk cat (
   | leaf f => intro bm h; simp at h
   | minus f s ih => exact ⟨ih, by intro bm h; simp at h⟩
 
+theorem memAlg_strip (cat : Nat → Nat → Bool) (c : Class) (ch : Nat) : memAlg cat (strip c) ch = memAlg cat c ch := by
+  induction c with
+  | leaf f => rfl
+  | minus f s ih => simp only [strip, memAlg, ih]; rfl
+
 theorem rangesOk_strip (c : Class) (hl : Class.RangesOk c) : Class.RangesOk (strip c) := by
   induction c with
   | leaf f => exact hl
